@@ -521,6 +521,29 @@ def r_count_or_nan(cx):
             allstates |= sts
         nstates += len(allstates)
         if cx.pid == "C02":
+            # a counter is only ever advanced: a carried integer that some path advances by one is not set to a constant
+            # on another path of the same loop (`successes = 1` forgets what was counted before the tuple)
+            for l in carried_locals(f, pt.lp):
+                if f.local_ty(l) not in ("usize", "i32", "u32", "u64", "i64"):
+                    continue
+                v, preds = header_phi(f, pt.lp.header, l)
+                if v is None:
+                    continue
+                inc = const = False
+                for p, o in zip(preds, v[2]):
+                    if p not in pt.lp.body:
+                        continue
+                    for lf in leaves(o, pt.lp.header):
+                        if lf[0] == "bin" and lf[1] == "Add" and is_carry(lf[2], pt.lp.header, l) and is_const_num(lf[3], 1):
+                            inc = True
+                        elif is_const_num(lf):
+                            const = True
+                if inc:
+                    cx.ob("R-COUNT-OR-NAN", "%s/loop@%s/never-reset/%s" % (f.name, lid, f.lname(l)), not const,
+                          "the count `%s` is only ever advanced" % f.lname(l) if not const else
+                          "%s: the count `%s` is advanced on one path of the per-tuple loop and set to a constant on another: "
+                          "what was counted before that tuple is forgotten, so the result depends on where in the set the "
+                          "tuple stands" % (f.name, f.lname(l)), where)
             # count additivity: each iteration adds 0 or 1
             bad = [s for s in allstates if s[2] > 1]
             cx.ob("R-COUNT-OR-NAN", "%s/loop@%s/additive" % (f.name, lid), not bad,
